@@ -56,12 +56,6 @@ const c15nHashPrefix = "cali:" // rulesdefs.RuleHashPrefix, what felix/dataplane
 const c15nTableName = "calico"
 
 
-// Open known finding (KNOWN_FINDINGS.json); generation steers around it only when the driver lists
-// it in $VERIF_KNOWN.  A transaction that nft reports as failed although the kernel committed it
-// (nft killed after commit), followed by a failed ListAll in the reload, makes Felix retry from
-// its pre-transaction view: rules are appended to the chains it has just written.
-const c15nSigStaleRetry = "c15-nft-retry-after-committed-tx-writes-from-old-view-when-listall-fails"
-
 type c15nNoopRecorder struct{}
 
 func (c15nNoopRecorder) RecordOperation(string) {}
@@ -103,8 +97,9 @@ type c15nKernel struct {
 	reads        int  // complete reads of Felix's table (ListAll + rules) so far
 	// Complete reads by the Table object that currently holds the handle (reset when a new Table
 	// asks for a dataplane handle), and ListAll failures of the current Apply that hit a Table which
-	// had not completed any read yet: such an Apply attempt cannot write and counts as a failed
-	// attempt in Felix's retry loop.
+	// had not completed any read yet or whose transaction had already failed earlier in the same
+	// Apply (its view is then unreliable): such an attempt must not write and counts as a failed
+	// attempt in Felix's retry loop.  A failed ListAll on a plain resync does not.
 	instanceReads     int
 	freshListAllFails int
 	lastReadAt   time.Time
@@ -300,7 +295,7 @@ func (k *c15nKernel) ListAll(ctx context.Context) (map[string][]string, error) {
 	if k.listAllFaults > 0 {
 		k.listAllFaults--
 		k.injListFired++
-		if k.instanceReads == 0 {
+		if k.instanceReads == 0 || k.injRunFired+k.natRunFailed > 0 {
 			k.freshListAllFails++
 		}
 		return nil, errors.New("injected: nft list failed")
@@ -1073,15 +1068,6 @@ func (h *c15nH) apply(label string) bool {
 			}
 		}
 	}
-	if ev.Known(c15nSigStaleRetry) && k.listAllFaults > 0 {
-		for _, f := range k.runFaults {
-			if f == "fail-after-commit" {
-				h.rec.Excluded(c15nSigStaleRetry)
-				k.listAllFaults = 0
-				break
-			}
-		}
-	}
 	extDirtyAtStart := k.extDirty || k.mapViewStale
 	freshAtStart := h.freshTable
 	readsAtStart := k.reads
@@ -1109,11 +1095,12 @@ func (h *c15nH) apply(label string) bool {
 	// although nft reported failure (Felix's view of the table is then wrong through no fault of
 	// its own).
 	envTrouble := extDirtyAtStart || k.raceFired > 0 || k.injListFired > 0 || k.injAfterCommit > 0
-	// A ListAll failure that hits a Table which has never read the kernel makes that attempt of the
-	// retry loop fail (Felix must not write blind); one that hits a Table with a view does not.
+	// A ListAll failure that hits a Table which has never read the kernel, or which has just seen a
+	// transaction fail, makes that attempt of the retry loop fail (Felix must not write from an
+	// unreliable view); one that hits a Table with a trusted view does not.
 	envFailures := k.injRunFired + k.freshListAllFails
 	if k.freshListAllFails > 0 {
-		h.classes["first-read-failed-attempt-retried"] = true
+		h.classes["failed-listing-counted-as-failed-attempt"] = true
 	}
 	if envTrouble {
 		envFailures += k.natRunFailed
@@ -1168,7 +1155,7 @@ func (h *c15nH) apply(label string) bool {
 				allowedNatural = 6
 			}
 			if k.injRunFired+k.freshListAllFails+allowedNatural < 11 {
-				h.fail("Apply gave up (%s) although only %d transaction failures and %d failures of a Table's first listing were injected during the call (%d more failed on their own; another program interfered: %v)", msg, k.injRunFired, k.freshListAllFails, k.natRunFailed, envTrouble)
+				h.fail("Apply gave up (%s) although only %d transaction failures and %d listing failures that block writing were injected during the call (%d more failed on their own; another program interfered: %v)", msg, k.injRunFired, k.freshListAllFails, k.natRunFailed, envTrouble)
 			}
 		case strings.Contains(msg, "command failed after retries"):
 			if k.injListRulesFired < 4 {
@@ -1883,8 +1870,7 @@ func TestVerifC15NftablesSync(t *testing.T) {
 
 // ---------------------------------------------------------------------------------------------
 // Deterministic scripts: TestVerifC15NftRegression* are fixed findings kept as regression tests inside the
-// unit's normal run; TestVerifC15NftKnown* reproduce open known findings (run by the driver only to
-// confirm that a listed finding still reproduces).
+// unit's normal run.
 
 func c15nScriptH(t *testing.T) *c15nH {
 	ev.Quiet()
@@ -1943,17 +1929,22 @@ func TestVerifC15NftRegressionBlindFirstApply(t *testing.T) {
 	}
 }
 
-// Open finding c15nSigStaleRetry (run by the driver only to confirm that it still reproduces; not
-// in the unit's run regex): the transaction that rewrites a chain is committed but nft reports
-// failure; the reload's ListAll fails; the retry appends the rules a second time.
-func TestVerifC15NftKnownRetryAfterCommittedTx(t *testing.T) {
+// The transaction that creates a chain is committed but nft reports failure (killed after commit)
+// and the reload's ListAll fails: before e30b424 the retry wrote from the pre-transaction view and
+// appended the rules a second time.  Now the attempt is retried after a successful re-read.
+func TestVerifC15NftRegressionRetryAfterCommittedTx(t *testing.T) {
 	h := c15nScriptH(t)
 	h.apply("A") // Felix has read the table; the chain does not exist yet
 	h.setChain("filter-cali-FORWARD", []c15nRuleSpec{{Match: 3, Action: 1}})
 	h.setInserts("filter-FORWARD", []c15nRuleSpec{{Match: 1, Action: 3, Target: "filter-cali-FORWARD"}})
 	h.k.runFaults = []string{"fail-after-commit"}
 	h.k.listAllFaults = 1
-	h.apply("A")
+	if !h.apply("A") || !h.classes["verified-apply"] {
+		t.Fatalf("expected a verified Apply; classes=%v", h.classes)
+	}
+	if h.k.injAfterCommit != 1 || h.k.freshListAllFails != 1 {
+		t.Fatalf("HARNESS-GAP: injected faults not consumed as scripted (after-commit %d, blocking list failures %d)", h.k.injAfterCommit, h.k.freshListAllFails)
+	}
 }
 
 // A chain that becomes referenced and stops being referenced before the next Apply (a workload
